@@ -163,6 +163,8 @@ def build(case):
     composition = fm.Composition(comps, print_log=False)
     adapters = []
     fin_count = {}
+    shared = {}
+    n_shared = [0]
     link_list = [(idx, i) for idx, spec in enumerate(comps_spec) for i, _ in enumerate(spec["inputs"])]
     if case.get("link_order") is not None:
         link_list = [link_list[k] for k in case["link_order"]]
@@ -173,6 +175,15 @@ def build(case):
             sc, so = inp["src"]
             chain = [mk_adapter(a) for a in inp["chain"]]
             node = comps[sc].outputs[f"o{so}"]
+            if so in comps_spec[sc].get("shared_out", []):
+                # all links of this output branch behind ONE shared pass-through adapter at the output
+                key = (sc, so)
+                if key not in shared:
+                    shared[key] = fm.adapters.Scale(1.0)
+                    node >> shared[key]
+                    _wrap_finalize(shared[key], fin_count, (-1 - sc, so, 0))
+                    n_shared[0] += 1
+                node = shared[key]
             for ad in reversed(chain):  # chain is listed in pull order; link from the source
                 node = node >> ad
             node >> comps[idx].inputs[f"i{i}"]
@@ -185,7 +196,7 @@ def build(case):
         if spec["kind"] == "T":
             for o in range(spec["nout"]):
                 _wrap_output(comps[idx].outputs[f"o{o}"], events, idx, o)
-    return composition, comps, events, adapters, fin_count, t0
+    return composition, comps, events, adapters, fin_count, t0, n_shared[0]
 
 
 def _wrap_output(out, events, c, o):
@@ -223,7 +234,7 @@ def _wrap_finalize(ad, fin_count, key):
 
 
 def run_case(case, connect_only=False):
-    composition, comps, events, adapters, fin_count, t0 = build(case)
+    composition, comps, events, adapters, fin_count, t0, n_shared = build(case)
     outcome = "ok"
     phase = "connect"
     try:
@@ -249,7 +260,7 @@ def run_case(case, connect_only=False):
         "status": status,
         "calls": ["".join(c.calls) for c in comps],
         "fin": sorted([list(k) + [v] for k, v in fin_count.items()]),
-        "n_adapters": len(adapters),
+        "n_adapters": len(adapters) + n_shared,
         "received": [c.received if isinstance(c, TComp) else None for c in comps],
         "init_times": [[idx, i, k, us_of(ad.initial_time)] for idx, i, k, ad in adapters if hasattr(ad, "initial_time")],
         "t0": t0,
